@@ -818,7 +818,12 @@ def build_library(seed, tier):
         how = ["same_list", "copy"][(j // 2) % 2] if tier == "quick" else None
         for h in ([how] if how else ["same_list", "copy"]):
             ins = [{"s": "sib_new", "how": h}, {"s": "sib_rm"}, {"s": "sib_add"}]
-            if j % 3 == 0:
+            other = {"hh93": "rr07x", "rr07x": "hh93", "rr07": "hh93"}.get(d["net"].get("grain_model"))
+            if other:
+                # ice networks: the sibling rates the SAME reaction objects under the other grain model first
+                ins = [{"s": "sib_new", "how": h, "grain_model": other},
+                       {"s": "sib_render", "solver": "cvode", "method": "dense", "device": "cpu"}]
+            elif j % 3 == 0:
                 ins.append({"s": "sib_render", "solver": "cvode", "method": "sparse", "device": "cpu"})
             if j % 3 == 1:
                 ins.append({"s": "sib_allowed"})
@@ -845,6 +850,7 @@ def build_library(seed, tier):
         if n.get("grain_model"):
             pre = (n.get("species_kwargs") or {}).get("surface_prefix", "#")
             edits.append({"s": "set_eb", "values": {pre + "CO": 999.0, pre + "H2O": 4321.0, pre + "O2": 777.0}})
+            edits.insert(0, {"s": "set_grain_model", "model": {"hh93": "rr07x", "rr07x": "hh93", "rr07": "hh93"}[n["grain_model"]]})
         for e in ([edits[(j // 2) % len(edits)]] if tier == "quick" else edits):
             R = dict(d["steps"][r], reuse_loader=True)
             R.pop("inplace", None)
